@@ -382,6 +382,23 @@ pub fn drain_cases(args: &Args, mut out: Out) -> usize {
     cases.push(("same single combo twice, full run".into(), Cfg { flop, ranges: vec![one(8, 9), one(8, 9)], from: (0, 1), to: (48, 49), scoped: false }));
     cases.push(("only combo touches the flop, full run".into(), Cfg { flop, ranges: vec![one(14, 9)], from: (0, 1), to: (48, 49), scoped: false }));
     cases.push(("flop-blocked combo beside 300 combos, two turns".into(), Cfg { flop, ranges: vec![shuffled[..300].to_vec(), one(27, 3)], from: (0, 1), to: (2, 3), scoped: true }));
+    // every combo of a player holds the last card of the deck (2c, or 2d when 2c is on the flop), or the first one
+    let with_card = |c: usize, others: &[usize]| -> Vec<Entry> { others.iter().map(|&o| { let (a, b) = norm(c, o); Entry { a, b, m: 1, e: 1 } }).collect() };
+    cases.push(("every combo holds 2c (last deck card), full run".into(), Cfg { flop, ranges: vec![with_card(51, &[50]), one(0, 4)], from: (0, 1), to: (48, 49), scoped: false }));
+    cases.push(("three combos all holding 2c, last turns".into(), Cfg { flop, ranges: vec![with_card(51, &[3, 7, 11])], from: (40, 41), to: (48, 49), scoped: true }));
+    cases.push(("2c on the flop, every combo holds 2d".into(), Cfg { flop: [51, 27, 40], ranges: vec![with_card(50, &[49, 2]), shuffled[..30].to_vec()], from: (30, 31), to: (48, 49), scoped: true }));
+    cases.push(("every combo holds As (first deck card), first turns".into(), Cfg { flop, ranges: vec![with_card(0, &[1, 5, 9]), shuffled[..20].to_vec()], from: (0, 1), to: (3, 4), scoped: true }));
+    // many players with one combo each (a flop leaves room for 23)
+    for &np in &[10usize, 16, 17, 20, 23] {
+        let ranges: Vec<Vec<Entry>> = (0..np).map(|p| one(2 * p + if 2 * p >= 14 { 2 } else { 0 }, 2 * p + 1 + if 2 * p + 1 >= 14 { 2 } else { 0 })).collect();
+        // skip cards of the flop [14, 27, 40]: shift pairs that would touch them
+        let ok = ranges.iter().all(|r| ![14usize, 27, 40].contains(&r[0].a) && ![14usize, 27, 40].contains(&r[0].b));
+        let ranges = if ok { ranges } else {
+            let free: Vec<usize> = (0..52).filter(|c| ![14usize, 27, 40].contains(c)).collect();
+            (0..np).map(|p| one(free[2 * p], free[2 * p + 1])).collect()
+        };
+        cases.push((format!("{} players with one combo each, full run", np), Cfg { flop, ranges, from: (0, 1), to: (48, 49), scoped: false }));
+    }
     // three and four players, mid-size ranges, a few positions
     cases.push(("three players 20x20x20".into(), Cfg { flop, ranges: vec![shuffled[..20].to_vec(), shuffled[10..30].to_vec(), shuffled[25..45].to_vec()], from: (5, 6), to: (5, 9), scoped: true }));
     let n_extra = if thorough { 40 } else { 4 };
